@@ -73,6 +73,7 @@ class PoolWorld(object):
         self.replace_log = []
         self.pool_info = {}
         self.in_service = set()
+        self.trashed_at = {}
         self.session_shutdown_trace = None
         self.viol = []
         pw = self
@@ -82,6 +83,7 @@ class PoolWorld(object):
             sim_connected_trace = None        # world.trace index at which the handshake completed (connected_event set)
 
             def __init__(self, *a, **kw):
+                self.sim_created_trace = len(pw.world.trace)
                 base.__init__(self, *a, **kw)
                 pw.hook(self)
                 pw.watch_pool(owner_of(self))
@@ -169,6 +171,7 @@ class PoolWorld(object):
             if pool is not None:
                 if conn in getattr(pool, '_trash', ()):
                     self.trashed.add(conn.sim_id)
+                    self.trashed_at.setdefault(conn.sim_id, len(self.world.trace))
                 if not pool.is_shutdown and (getattr(pool, '_connection', None) is conn or conn in (getattr(pool, '_connections', None) or ())):
                     self.in_service.add(conn.sim_id)       # seen installed in a live pool
         conn.lock.hooks = [inv]
@@ -213,6 +216,31 @@ class PoolWorld(object):
             return real_shutdown()
         self.session.shutdown = shutdown
         return self.session
+
+    def construction_interval(self, pool):
+        """(first connection created, last connection connected) of a pool, as world.trace indices"""
+        cs = [c for c in self.net.conns if owner_of(c) is pool and c.sim_creator == 'pool-init']
+        done = [c.sim_connected_trace for c in cs if c.sim_connected_trace is not None]
+        if not cs or not done:
+            return None
+        return (min(c.sim_created_trace for c in cs), max(done))
+
+    def built_concurrently_for_same_host(self, pool):
+        """other pools of the same host whose construction overlapped this pool's construction"""
+        me = self.construction_interval(pool)
+        out = []
+        if me is None:
+            return out
+        seen = []
+        for c in self.net.conns:
+            q = owner_of(c)
+            if q is None or q is pool or q in seen or getattr(q, 'host', None) is not getattr(pool, 'host', None):
+                continue
+            seen.append(q)
+            iv = self.construction_interval(q)
+            if iv is not None and iv[0] < me[1] and me[0] < iv[1]:
+                out.append(q)
+        return out
 
     def pool_finished_after_session_shutdown(self, pool):
         """Session.shutdown() had already been called when the last connection of this pool finished its handshake"""
